@@ -17,11 +17,11 @@ inductive AssignStar (f : Sem) (j : Job) (cl : Cluster) (cm : Comps) : SysX → 
   | step (x y z : SysX) (st : StepX) : AssignStar f j cl cm x y → y.sys.phase = .assigning →
       stepX f j cl cm y st = some z → AssignStar f j cl cm x z
 
-/-- **Progress.** An iteration of the controller loop entered (under FIFO delivery) with something
+/-- **Progress.** An iteration of the controller loop entered (after ANY history of event deliveries) with something
 computable and nothing ongoing dispatches at least one task before `assign()` returns — so the
 controller never spins without issuing a command. -/
 def ProgressStmt (f : Sem) (j : Job) (cl : Cluster) (cm : Comps) : Prop :=
-  ∀ x x1 x2 : SysX, ReachableFifo f j cl cm x → x.sys.phase = .top →
+  ∀ x x1 x2 : SysX, ReachableX f j cl cm x → x.sys.phase = .top →
     x.sys.ctl.hasComputable = true → x.sys.ctl.ongoing = [] →
     stepX f j cl cm x (.base .enter) = some x1 → AssignStar f j cl cm x1 x2 → x2.sys.phase = .planning →
     x2.sys.todo ≠ []
